@@ -12,7 +12,7 @@ use divan::counter::{BytesCount, CharsCount, CyclesCount, ItemsCount};
 
 use crate::{section, sections};
 
-fn parse_level(spec: &str) -> Option<BenchOptions<'static>> {
+pub fn parse_level(spec: &str) -> Option<BenchOptions<'static>> {
     if spec == "-" {
         return None;
     }
@@ -55,7 +55,7 @@ fn show_opt<T: ToString>(k: &str, val: Option<T>) -> String {
     }
 }
 
-fn show(o: &BenchOptions) -> String {
+pub fn show(o: &BenchOptions) -> String {
     let th = o.threads.as_deref().map(|l| l.iter().map(|n| n.to_string() + ".").collect::<String>());
     [
         show_opt("sc", o.sample_count),
@@ -133,7 +133,7 @@ pub fn ovw(line: &str) -> String {
 }
 
 /// A deep copy with an owned thread list.
-fn detach(o: &BenchOptions) -> BenchOptions<'static> {
+pub fn detach(o: &BenchOptions) -> BenchOptions<'static> {
     BenchOptions {
         sample_count: o.sample_count,
         sample_size: o.sample_size,
